@@ -720,6 +720,182 @@ def gen_program(rng, n_ops):
     return p
 
 
+
+# ---------------------------------------------------------------- concatenation trees of every shape
+
+def chain_leaf(rng, p, allow_inf=False):
+    """one leaf of a concatenation tree (element type int), of a random representation; returns its node index"""
+    kind = rng.choice(["array", "array", "single", "range", "range", "map", "zip", "slice", "reverse", "empty", "lazyempty",
+                       "chained", "pushed"] + (["count"] if allow_inf else []))
+    small = lambda: rng.randrange(-9, 30)
+    arr = lambda n: p.add("arr", (xs := [small() for _ in range(n)]), "[" + ", ".join(lit(x) for x in xs) + "]", "I", L(xs))
+    if kind == "array":
+        return arr(rng.choice([2, 3, 4]))
+    if kind == "single":
+        return arr(1)
+    if kind == "range":
+        s_ = rng.randrange(-5, 6)
+        args = [s_, s_ + rng.choice([1, 2, 3, 4]), 1] if rng.random() < 0.7 else [s_ + 6, s_, rng.choice([-2, -3])]
+        return p.add("range", args, "range(" + ", ".join(lit(a) for a in args) + ")", "I", orc_range(args))
+    if kind == "map":
+        k = arr(rng.choice([1, 2, 3]))
+        c, d = rng.choice([1, 2, -1, 3]), rng.choice([0, 1, -5, 7])
+        return p.add("map", [k, c, d], f"${k}.map((x: int)->{{x*{lit(c)}+{lit(d)}}})", "I", orc_map(p.nodes[k].orc, c, d))
+    if kind == "zip":
+        a, b = arr(rng.choice([2, 3])), arr(rng.choice([1, 2, 3]))
+        z = p.add("zip", [a, b], f"zip(${a}, ${b})", "P2", orc_zip([p.nodes[a].orc, p.nodes[b].orc]))
+        c = rng.randrange(2)
+        return p.add("unzip", [z, c], f"${z}.unzip()::item{c}", "I", orc_unzip(p.nodes[z].orc, c))
+    if kind == "slice":
+        k = arr(rng.choice([3, 4, 5]))
+        if rng.random() < 0.5:
+            c = rng.choice([1, 2])
+            return p.add("skip", [k, c], f"${k}.skip({c})", "I", orc_skip(p.nodes[k].orc, c))
+        c = rng.choice([1, 2, 3])
+        return p.add("take", [k, c], f"${k}.take({c})", "I", orc_take(p.nodes[k].orc, c))
+    if kind == "reverse":
+        k = arr(rng.choice([1, 2, 3]))
+        return p.add("rev", [k], f"${k}.reverse()", "I", orc_rev(p.nodes[k].orc))
+    if kind == "empty":
+        return p.add("range", [0], "range(0)", "I", orc_range([0]))
+    if kind == "lazyempty":
+        k = p.add("range", [0], "range(0)", "I", orc_range([0]))
+        return p.add("map", [k, 1, 0], f"${k}.map((x: int)->{{x*1+0}})", "I", orc_map(p.nodes[k].orc, 1, 0))
+    if kind == "chained":
+        a, b = arr(rng.choice([1, 2])), arr(rng.choice([1, 2]))
+        return p.add("add", [a, b], f"${a} + ${b}", "I", orc_add(p.nodes[a].orc, p.nodes[b].orc))
+    if kind == "pushed":
+        k = arr(rng.choice([1, 2]))
+        x = small()
+        return p.add("push", [k, x], f"${k}.push({lit(x)})", "I", orc_push(p.nodes[k].orc, x))
+    return p.add("count", [], "count()", "I", orc_count())
+
+
+def chain_shape(rng, n, style):
+    """a binary tree over leaves 0..n-1 as nested pairs"""
+    def build(lo, hi, st):
+        if hi - lo == 1:
+            return lo
+        if st == "left":
+            cut = hi - 1
+        elif st == "right":
+            cut = lo + 1
+        elif st == "balanced":
+            cut = (lo + hi) // 2
+        else:
+            cut = rng.randrange(lo + 1, hi)
+        return (build(lo, cut, st), build(cut, hi, st))
+    if style.startswith("split"):
+        cut = int(style[5:])
+        return (build(0, cut, "left"), build(cut, n, "left"))      # (a+b+..)+(c+d+..): both operands left-deep chains
+    return build(0, n, style)
+
+
+def observe_fully(p, k, rng):
+    """len, every index incl. negative and one beyond each end, to_array (twice), take/skip at every boundary,
+    first/last/nth, reverse, == with the flat array literal"""
+    a = p.nodes[k].orc
+    if not isinstance(a, L):
+        return
+    if not a.finite():
+        observe(p, k, "new")
+        for i in range(0, 12):
+            p.add("get", [k, i], f"${k}[{i}]", "elem", orc_get(a, i), obs_of=k, phase="new")
+        for c in (3, 9):
+            t = p.add("take", [k, c], f"${k}.take({c})", "I", orc_take(a, c), obs_of=k, phase="new")
+            p.add("toarr", [t], f"${t}.to_array()", "I", orc_toarr(p.nodes[t].orc), obs_of=k, phase="new")
+        return
+    n = a.n
+    p.add("len", [k], f"${k}.len()", "int", orc_len(a), obs_of=k, phase="new")
+    for i in range(-n - 1, n + 1):
+        p.add("get", [k, i], f"${k}[{lit(i)}]", "elem", orc_get(a, i), obs_of=k, phase="new")
+    p.add("toarr", [k], f"${k}.to_array()", "I", orc_toarr(a), obs_of=k, phase="new")
+    for c in range(0, n + 2):
+        t = p.add("take", [k, c], f"${k}.take({c})", "I", orc_take(a, c), obs_of=k, phase="new")
+        p.add("toarr", [t], f"${t}.to_array()", "I", orc_toarr(p.nodes[t].orc), obs_of=k, phase="new")
+        t = p.add("skip", [k, c], f"${k}.skip({c})", "I", orc_skip(a, c), obs_of=k, phase="new")
+        p.add("toarr", [t], f"${t}.to_array()", "I", orc_toarr(p.nodes[t].orc), obs_of=k, phase="new")
+    # a slice strictly inside, across part boundaries
+    if n >= 3:
+        lo = rng.randrange(1, n - 1)
+        hi = rng.randrange(lo + 1, n)
+        t = p.add("skip", [k, lo], f"${k}.skip({lo})", "I", orc_skip(a, lo), obs_of=k, phase="new")
+        u = p.add("take", [t, hi - lo], f"${t}.take({hi - lo})", "I", orc_take(p.nodes[t].orc, hi - lo), obs_of=k, phase="new")
+        p.add("toarr", [u], f"${u}.to_array()", "I", orc_toarr(p.nodes[u].orc), obs_of=k, phase="new")
+    if not any(has_bad(x) for x in a.tolist()):
+        for i, c in ((0, 5), (-1, 5), (1, 100), (-2, 100), (n, 100)):
+            o = orc_nth(a, i, c)
+            pred = f"(x: int)->{{x < {lit(c)}}}"
+            src = f"${k}.first({pred})" if i == 0 else (f"${k}.last({pred})" if i == -1 else f"${k}.nth({lit(i)}, {pred})")
+            p.add("nth", [k, i, c, 1000], src, "opt", o, obs_of=k, phase="new")
+        r = p.add("rev", [k], f"${k}.reverse()", "I", orc_rev(a), obs_of=k, phase="new")
+        p.add("toarr", [r], f"${r}.to_array()", "I", orc_toarr(p.nodes[r].orc), obs_of=k, phase="new")
+        xs = a.tolist()
+        if xs:
+            f = p.add("arr", xs, "[" + ", ".join(lit(x) for x in xs) + "]", "I", L(xs), obs_of=k, phase="new")
+            p.add("eq", [k, f, 1000], f"${k} == ${f}", "bool", orc_eq(a, p.nodes[f].orc), obs_of=k, phase="new")
+            p.add("eq", [f, k, 1000], f"${f} == ${k}", "bool", orc_eq(p.nodes[f].orc, a), obs_of=k, phase="new")
+    # iteration a second time
+    p.add("toarr", [k], f"${k}.to_array()", "I", orc_toarr(a), obs_of=k, phase="final")
+    p.add("len", [k], f"${k}.len()", "int", orc_len(a), obs_of=k, phase="final")
+
+
+CHAIN_STYLES = ["left", "right", "balanced", "random", "random", "split2", "split3", "split4"]
+
+
+def gen_chain_program(rng, style=None, n_leaves=None):
+    """a concatenation tree built step by step through let-bound intermediates (every operand of `+` is an existing
+    value, so Chain + Chain arms with many parts on either side are reached), then extended and observed fully"""
+    p = Prog()
+    n = n_leaves or rng.choice([2, 3, 4, 5, 5, 6, 6, 7, 8])
+    style = style or rng.choice(CHAIN_STYLES)
+    if style.startswith("split") and int(style[5:]) >= n:
+        style = "random"
+    inf_last = rng.random() < 0.12
+    leaves = [chain_leaf(rng, p, allow_inf=(inf_last and i == n - 1)) for i in range(n)]
+
+    def build(t):
+        if isinstance(t, int):
+            return leaves[t]
+        a, b = build(t[0]), build(t[1])
+        return p.add("add", [a, b], f"${a} + ${b}", "I", orc_add(p.nodes[a].orc, p.nodes[b].orc))
+
+    root = build(chain_shape(rng, n, style))
+    observe_fully(p, root, rng)
+    # extend the chain and observe again
+    a = p.nodes[root].orc
+    if isinstance(a, L):
+        ext = rng.choice(["add_leaf", "add_self", "leaf_add", "push", "insert", "add_tree", "none"])
+        e = None
+        if ext == "add_leaf":
+            l = chain_leaf(rng, p)
+            e = p.add("add", [root, l], f"${root} + ${l}", "I", orc_add(a, p.nodes[l].orc))
+        elif ext == "leaf_add":
+            l = chain_leaf(rng, p)
+            e = p.add("add", [l, root], f"${l} + ${root}", "I", orc_add(p.nodes[l].orc, a))
+        elif ext == "add_self":
+            e = p.add("add", [root, root], f"${root} + ${root}", "I", orc_add(a, a))
+        elif ext == "add_tree":
+            m = rng.choice([3, 4])
+            ls = [chain_leaf(rng, p) for _ in range(m)]
+            acc = ls[0]
+            for l in ls[1:]:
+                acc = p.add("add", [acc, l], f"${acc} + ${l}", "I", orc_add(p.nodes[acc].orc, p.nodes[l].orc))
+            if isinstance(p.nodes[acc].orc, L):
+                e = p.add("add", [root, acc], f"${root} + ${acc}", "I", orc_add(a, p.nodes[acc].orc))
+        elif ext == "push" and a.finite():
+            x = rng.randrange(-9, 30)
+            e = p.add("push", [root, x], f"${root}.push({lit(x)})", "I", orc_push(a, x))
+        elif ext == "insert" and a.finite():
+            i, x = rng.randrange(-a.n, a.n + 1) if a.n else 0, rng.randrange(-9, 30)
+            e = p.add("insert", [root, i, x], f"${root}.insert({lit(i)}, {lit(x)})", "I", orc_insert(a, i, x))
+        if e is not None and isinstance(p.nodes[e].orc, L) and (not p.nodes[e].orc.finite() or p.nodes[e].orc.n <= 40):
+            observe_fully(p, e, rng)
+        # the operands are unchanged
+        observe(p, root, "final")
+    return p, style
+
+
 # ---------------------------------------------------------------- running and comparing
 
 def canon_impl(d):
@@ -948,6 +1124,17 @@ def run(chk):
         progs.append(gen_program(rng, n_ops))
         chk.count("programs:ops=%d" % n_ops)
 
+    # concatenation trees of every shape (every style at every leaf count first, then random ones)
+    n_chain = 160 if quick else 6000
+    combos = [(st, n) for n in (3, 4, 5, 6, 7, 8) for st in ("left", "right", "balanced", "split2", "split3", "split4")]
+    for i in range(n_chain):
+        if i < len(combos):
+            cp, st = gen_chain_program(rng, style=combos[i][0], n_leaves=combos[i][1])
+        else:
+            cp, st = gen_chain_program(rng)
+        progs.append(cp)
+        chk.count("chain-tree:" + st)
+
     impl = run_programs(progs, batch=8)
     model = run_model([p.model_line() for p in progs])
     for p, ri, rm in zip(progs, impl, model):
@@ -960,7 +1147,10 @@ def run(chk):
     return chk.finish(rule="SSA programs of 1-6 (quick) / 1-12 (thorough) sequence operations over literal arrays, ranges (small and with "
                            "64-bit edge arguments), count(), count(start, offset), empty sequences and earlier results; indices and counts at "
                            "-len-1, -len, -1, 0, len-1, len, len+1, random in range and 2^63/2^64 neighbours; every sequence node observed when "
-                           "created and again at the end; non-trivial = distinct (operation, lazy representation produced, element type)")
+                           "created and again at the end; non-trivial = distinct (operation, lazy representation produced, element type); plus concatenation trees of "
+                           "every shape (left/right-deep, balanced, (k)+(n-k), random) over 2-8 leaves of every representation, built through "
+                           "let-bound intermediates, extended by +/push/insert, observed at every index, every take/skip boundary, "
+                           "nth/first/last, reverse, == with the flat array, to_array twice")
 
 
 def replay(path):
